@@ -13,6 +13,10 @@ L3: the property itself on the observations: status sequences only move forward;
     CANCELLING, its value is kept and it is CANCELLED (exact ties: either); no timeout in effect => DONE; after
     search() returns every submitted job is in the table exactly once with a terminal status, and search() returns
     no later than the last of its evaluations.
+Evaluators created with callbacks (logger, progress bar, SearchEarlyStopping, a user's callback with `search_stopped`):
+    L2 against the model's loop with the explicit `stopped` flag (`Model/StopFlag.lean`, fed with what `_search` saw of
+    each callback at the end of every iteration); L3 clause `keeps-submitting-after-expiry` (all search-level scenarios):
+    no ask() of a timed call after a tell() of that call that took place at/after the call's deadline.
 """
 import asyncio
 import json
@@ -31,18 +35,30 @@ TICK = 1.0
 ST = {"READY": 0, "RUNNING": 1, "DONE": 2, "CANCELLING": 3, "CANCELLED": 4}
 ALLOWED_LOGS = [[0], [0, 1], [0, 1, 2], [0, 1, 3], [0, 1, 3, 4], [0, 4], [0, 1, 4]]
 
-_G = {"specs": [], "runlog": {}, "clock": None, "lock": threading.Lock(), "hpo": False, "unit": 1.0, "voff": 0}
+_G = {"specs": [], "runlog": {}, "clock": None, "lock": threading.Lock(), "hpo": False, "unit": 1.0, "voff": 0, "vmode": "up"}
+VTOP = 1000
 
 
 def _tick(x):
     return int(math.floor(x / TICK + 1e-9))
 
 
+def _value(jid, voff, vmode):
+    """the value of job `jid`: `jid + voff` (increasing: every evaluation improves; voff = 0 makes the objective of
+    job 0 exactly 0.0) or, vmode "down", `VTOP - jid` (decreasing: no evaluation after the first improves, which is what
+    makes an early-stopping callback fire); distinct per job either way"""
+    return float(VTOP - jid) if vmode == "down" else float(jid + voff)
+
+
+def _expected(scn, i):
+    return _value(i, int(scn.get("voff", 0)), scn.get("vmode", "up"))
+
+
 def _out(jid, meta):
-    """the value of job `jid` is `jid + voff` (voff = 0 makes the objective of job 0 exactly 0.0)"""
+    v = _value(jid, _G["voff"], _G["vmode"])
     if _G["hpo"]:
-        return {"objective": float(jid + _G["voff"]), "metadata": meta}
-    return {"output": float(jid + _G["voff"]), "metadata": meta}
+        return {"objective": v, "metadata": meta}
+    return {"output": v, "metadata": meta}
 
 
 async def _run_async(job):
@@ -93,6 +109,105 @@ SPIN_LIMIT = 2000
 
 class _Spin(RuntimeError):
     """the caller polls the storage again and again while nothing changes in it: search() does not return"""
+
+
+class _LateSubmits(RuntimeError):
+    """search() keeps asking for / submitting new evaluations although a gather of the call had already ended at or
+    after the call's deadline (the run is cut short after LATE_ASK_LIMIT of them)"""
+
+
+ASK_LIMIT = 60  # scenarios with callbacks: a call makes at most max(n, t + 2) asks (every evaluation takes >= 1 tick)
+LATE_ASK_LIMIT = 12
+
+
+class _UserCallback:
+    """a user's own callback (deliberately not a subclass of deephyper's Callback): exposes `search_stopped`, raises it
+    once `after` evaluations have been gathered (`None`: never)"""
+
+    def __init__(self, after=None):
+        self.after = after
+        self.n = 0
+        self.search_stopped = False
+
+    def on_launch(self, job):
+        pass
+
+    def on_done(self, job):
+        self.n += 1
+        if self.after is not None and self.n >= self.after:
+            self.search_stopped = True
+
+    def on_done_other(self, job):
+        self.on_done(job)
+
+
+def _make_callbacks(descs):
+    """`cbs` of a scenario -> callback objects: "logger", "tqdm", ["es", patience], ["user", after | None]"""
+    from deephyper.evaluator.callback import LoggerCallback, SearchEarlyStopping, TqdmCallback
+
+    out = []
+    for d in descs or []:
+        kind = d if isinstance(d, str) else d[0]
+        if kind == "logger":
+            out.append(LoggerCallback())
+        elif kind == "tqdm":
+            out.append(TqdmCallback())
+        elif kind == "es":
+            out.append(SearchEarlyStopping(patience=int(d[1]), verbose=0))
+        elif kind == "user":
+            out.append(_UserCallback(d[1]))
+        else:
+            raise HarnessError(f"unknown callback descriptor {d!r}")
+    return out
+
+
+def _cb_names(descs):
+    names = {"logger": "logger", "tqdm": "tqdm", "es": "early-stopping", "user": "user"}
+    return "+".join(sorted({names[d if isinstance(d, str) else d[0]] for d in descs or []}))
+
+
+def _flags_diff(diff, key, rec, mo, dl):
+    """the `stopped` flag through the iterations of one call (Model/StopFlag.lean) vs the observations: as many completed
+    iterations as tells; the flag each iteration started with = `search.stopped` when its ask() began; "time budget
+    exhausted" at the end of an iteration = the tell took place at/after the deadline (ticks); the flag at the end"""
+    fl = mo.get("flags")
+    if fl is None or "tells" not in rec:
+        return
+    if len(fl) != len(rec["tells"]):
+        diff[f"{key}.iterations"] = (len(rec["tells"]), len(fl))
+        return
+    if [f[0] for f in fl] != [a[1] for a in rec["asks"][:len(fl)]]:
+        diff[f"{key}.flag_at_loop_head"] = ([a[1] for a in rec["asks"]], [f[0] for f in fl])
+    exp = [dl is not None and _tick(tl) >= _tick(dl) for tl in rec["tells"]]
+    if [f[1] for f in fl] != exp:
+        diff[f"{key}.expired_per_iteration"] = (exp, [f[1] for f in fl])
+    if fl and mo["stop"] in ("budget", "timeout") and fl[-1][3] != rec["stopped"]:
+        diff[f"{key}.flag_at_the_end"] = (rec["stopped"], fl[-1][3])
+
+
+def _late_detail(c, rec, serial, z):
+    """clause (S) for one returned call: detail of the violation, or None"""
+    if c.get("t") is None or "asks" not in rec:
+        return None
+    dl_hi, late = _late_asks(rec["asks"], rec["tells"], c["t"] * (TICK if serial else 1.0))
+    if not late:
+        return None
+    return {"deadline_not_later_than": round(dl_hi - z, 4), "tells": [round(x - z, 4) for x in rec["tells"]],
+            "asks_after_the_expiry_was_observable": [round(a[0] - z, 4) for a in late], "asks": len(rec["asks"])}
+
+
+def _late_asks(asks, tells, t_units):
+    """the asks of one search() call made after a tell of that call which took place at or after the call's deadline
+    (the `time_left <= 0` test that follows the tell reads a clock that is not earlier): -> (deadline_hi, late asks).
+    `deadline_hi` = the instant of the call's first ask + the time budget: the evaluator's deadline (budget counted from
+    the assignment of `evaluator.timeout`, which precedes the first ask) is not later than that."""
+    if t_units is None or not asks:
+        return None, []
+    dl_hi = asks[0][0] + t_units
+    seen = next((k for k, tl in enumerate(tells) if tl >= dl_hi), None)
+    if seen is None:
+        return dl_hi, []
+    return dl_hi, list(asks[seen + 1:])  # ask k+1 follows tell k
 
 
 def _log_storage(guard=False):
@@ -338,7 +453,7 @@ def run_evaluator_realtime(scn):
     return obs
 
 
-def _make_search(ev, log_dir, trace, clock, advance):
+def _make_search(ev, log_dir, trace, clock, advance, cbs=(), guard=False):
     from deephyper.hpo import HpProblem, RandomSearch
 
     problem = HpProblem()
@@ -349,7 +464,19 @@ def _make_search(ev, log_dir, trace, clock, advance):
 
         ask_ends = []  # the instants at which the slow asks of the current call ended
 
+        call_budget = None  # the time budget of the current call, in units of `clock`
+        asks = []  # per ask of the current call: (instant it began, `search.stopped` as the while condition read it)
+        tells = []  # per tell of the current call: the instant
+
         def ask(self, n=1):
+            self.asks.append((clock(), bool(self.stopped)))
+            if guard:
+                if len(self.asks) > ASK_LIMIT:
+                    raise _Spin("does-not-return: more than %d asks in one search() call" % ASK_LIMIT)
+                dl_hi, late = _late_asks(self.asks, self.tells, self.call_budget)
+                if len(late) > LATE_ASK_LIMIT:
+                    raise _LateSubmits("keeps-submitting-after-expiry: %d asks after a gather of the call had ended at/after "
+                                       "its deadline (run cut short)" % len(late))
             d = self.ask_delays.pop(0) if self.ask_delays else 0
             if d:
                 advance(d)
@@ -357,7 +484,10 @@ def _make_search(ev, log_dir, trace, clock, advance):
             return super().ask(n)
 
         def tell(self, results):
-            trace.append(("tell", [_jid(j) for j in results], clock()))
+            # what `_search` is about to see of the callbacks (nothing runs between this tell and its two tests)
+            views = [getattr(cb, "search_stopped", None) for cb in cbs]
+            self.tells.append(clock())
+            trace.append(("tell", [_jid(j) for j in results], clock(), views))
             return super().tell(results)
 
     return Spy(problem, ev, random_state=3, log_dir=log_dir)
@@ -386,6 +516,9 @@ def run_search_scenario(scn):
     from deephyper.evaluator import Evaluator
     from . import vloop
 
+    import contextlib
+    import io
+
     backend = scn["backend"]
     serial = backend == "serial"
     log_dir = tempfile.mkdtemp(prefix="c14_")
@@ -393,6 +526,7 @@ def run_search_scenario(scn):
     obs = {"calls": [], "error": None, "timeline": []}
     st = None
     poll = {"stop": False, "samples": {}}
+    with_cbs = scn.get("cbs") is not None
     try:
         if serial:
             vloop.QUANTUM = 1e-4
@@ -412,13 +546,17 @@ def run_search_scenario(scn):
 
             def advance(d):
                 _time.sleep(d * unit)
-        _G.update(voff=int(scn.get("voff", 0)), specs=[tuple(s) for s in scn["specs"]], runlog={}, clock=clock, hpo=True, unit=unit)
+        _G.update(voff=int(scn.get("voff", 0)), vmode=scn.get("vmode", "up"), specs=[tuple(s) for s in scn["specs"]],
+                  runlog={}, clock=clock, hpo=True, unit=unit)
         mk = {"num_workers": scn["W"]}
         if backend != "process":
             st = _log_storage()
             mk["storage"] = st
+        cbs = _make_callbacks(scn.get("cbs"))
+        if with_cbs:
+            mk["callbacks"] = cbs  # an option of every evaluator; the objects live as long as the evaluator
         ev = Evaluator.create(run, method=backend, method_kwargs=mk)
-        search = _make_search(ev, log_dir, trace, clock, advance)
+        search = _make_search(ev, log_dir, trace, clock, advance, cbs=cbs, guard=with_cbs)
         nrows = 0
         for c in scn["calls"]:
             del trace[:]
@@ -426,14 +564,27 @@ def run_search_scenario(scn):
             obs["timeline"].append((T0, None if c.get("t") is None else T0 + c["t"] * (TICK if serial else 1.0)))
             rec = {}
             search.ask_delays = list(c.get("delays") or [])
+            search.asks, search.tells = [], []
+            search.call_budget = None if c.get("t") is None else c["t"] * (TICK if serial else 1.0)
             try:
-                df = search.search(**call_kwargs(c))
+                # LoggerCallback prints, TqdmCallback draws on stderr
+                with contextlib.redirect_stdout(io.StringIO()), contextlib.redirect_stderr(io.StringIO()):
+                    df = search.search(**call_kwargs(c))
+            except (_Spin, _LateSubmits) as e:
+                obs["error"] = str(e)
+                obs["error_call"] = len(obs["calls"])
+                obs["error_asks"] = [list(a) for a in search.asks]
+                obs["error_tells"] = list(search.tells)
+                break
             except RuntimeError as e:
                 if "vloop" in str(e):
                     obs["error"] = "does-not-return"
                     break
                 raise
             rec["end"] = clock()
+            rec["asks"] = [list(a) for a in search.asks]
+            rec["tells"] = list(search.tells)
+            rec["views"] = [x[3] for x in trace]
             rec["stopped"] = bool(search.stopped)
             rows = []
             if df is not None:
@@ -514,7 +665,8 @@ def run_shared_scenario(scn):
 
             def advance(d):
                 _time.sleep(d * unit)
-        _G.update(voff=int(scn.get("voff", 0)), specs=[tuple(s) for s in scn["specs"]], runlog={}, clock=clock, hpo=True, unit=unit)
+        _G.update(voff=int(scn.get("voff", 0)), vmode=scn.get("vmode", "up"), specs=[tuple(s) for s in scn["specs"]], runlog={},
+                  clock=clock, hpo=True, unit=unit)
         if backend == "process":
             from deephyper.evaluator.storage import SharedMemoryStorage
 
@@ -527,10 +679,13 @@ def run_shared_scenario(scn):
             mk = {"num_workers": W, "storage": st}
             if k > 0:
                 mk["search_id"] = search_id
+            cbs_k = _make_callbacks((scn.get("cbs") or [])[k] if k < len(scn.get("cbs") or []) else None)
+            if scn.get("cbs") is not None:
+                mk["callbacks"] = cbs_k
             ev = Evaluator.create(run, method=backend, method_kwargs=mk)
             evs.append(ev)
             tr = []
-            sr = _make_search(ev, os.path.join(root, f"e{k}"), tr, clock, advance)
+            sr = _make_search(ev, os.path.join(root, f"e{k}"), tr, clock, advance, cbs=cbs_k, guard=scn.get("cbs") is not None)
             if k == 0:
                 search_id = sr.search_id
             searches.append(sr)
@@ -546,12 +701,17 @@ def run_shared_scenario(scn):
             rec = {"k": k, "n0": n0}
             search.ask_delays = list(c.get("delays") or [])
             search.ask_ends = []
+            search.asks, search.tells = [], []
+            search.call_budget = None if c.get("t") is None else c["t"] * (TICK if serial else 1.0)
             try:
-                with contextlib.redirect_stdout(io.StringIO()):  # gather_other_jobs_done prints the jobs it loads
+                # gather_other_jobs_done prints the jobs it loads; LoggerCallback prints, TqdmCallback draws on stderr
+                with contextlib.redirect_stdout(io.StringIO()), contextlib.redirect_stderr(io.StringIO()):
                     df = search.search(**call_kwargs(c))
-            except _Spin as e:
+            except (_Spin, _LateSubmits) as e:
                 obs["error"] = str(e)
                 obs["error_call"] = len(obs["calls"])
+                obs["error_asks"] = [list(a) for a in search.asks]
+                obs["error_tells"] = list(search.tells)
                 break
             except RuntimeError as e:
                 if "vloop" in str(e):
@@ -562,6 +722,9 @@ def run_shared_scenario(scn):
             rec["end"] = clock()
             rec["ask_ends"] = list(search.ask_ends)
             rec["stopped"] = bool(search.stopped)
+            rec["asks"] = [list(a) for a in search.asks]
+            rec["tells"] = list(search.tells)
+            rec["views"] = [x[3] for x in trace]
             n1 = len(st.load_all_job_ids(search_id))
             for i in range(n0, n1):
                 obs["owner"][i] = k
@@ -718,6 +881,7 @@ def run_shared_evaluator_scenario(scn):
 
 
 def run_scenario(scn):
+    _G["vmode"] = scn.get("vmode", "up")
     if scn["level"] == "shared-evaluator":
         return run_shared_evaluator_scenario(scn)
     if scn["level"] == "shared":
@@ -749,9 +913,17 @@ def lean_request(scn, obs, jobfirst=()):
             elif k == "settle":
                 ops.append({"op": "settle"})
         return {"W": scn["W"], "hpo": bool(scn.get("hpo")), "specs": specs, "ops": ops}
+    if scn.get("vmode", "up") != "up" or scn.get("voff"):
+        for sp in specs:
+            sp[3] = int(_expected(scn, sp[3]))
     for c, rec in zip(scn["calls"], obs["calls"]):
-        ops.append({"op": "search", "n": -1 if c.get("n") is None else c["n"], "strict": bool(c.get("strict")),
-                    "timeout": c.get("t"), "reps": rec["reps"], "drain": rec["drain"], "delays": list(c.get("delays") or [])})
+        op = {"op": "search", "n": -1 if c.get("n") is None else c["n"], "strict": bool(c.get("strict")),
+              "timeout": c.get("t"), "reps": rec["reps"], "drain": rec["drain"], "delays": list(c.get("delays") or [])}
+        if scn.get("cbs") is not None:
+            # evaluator with callbacks: the model's loop with the explicit `stopped` flag, fed with what `_search` saw of
+            # each callback at the end of every iteration
+            op["views"] = [[None if v is None else bool(v) for v in vs] for vs in rec["views"]]
+        ops.append(op)
     return {"W": scn["W"], "hpo": True, "specs": specs, "ops": ops}
 
 
@@ -823,8 +995,11 @@ def oracle(scn, obs, reported=None, per_call=True):
     voff = int(scn.get("voff", 0))
     serial = scn.get("backend", "serial") == "serial"
     if obs.get("error"):
-        return [("does-not-return" if "does-not-return" in obs["error"] or "vloop" in obs["error"] else "raises",
-                 "Search.search" if scn["level"] == "search" else "Evaluator.gather", obs["error"])]
+        err = obs["error"]
+        clause = "keeps-submitting-after-expiry" if err.startswith("keeps-submitting-after-expiry") else \
+            "does-not-return" if "does-not-return" in err or "vloop" in err else "raises"
+        return [(clause, "Search.search" if scn["level"] == "search" else "Evaluator.gather",
+                 {"error": err, "call": obs.get("error_call"), "asks": obs.get("error_asks"), "tells": obs.get("error_tells")})]
     entry = "Search.search" if scn["level"] == "search" else "Evaluator.gather"
     specs = scn["specs"]
     runlog = obs["runlog"]
@@ -928,11 +1103,19 @@ def oracle(scn, obs, reported=None, per_call=True):
                 bad.append(("running-at-deadline-not-CANCELLED", entry, info))
         if status in ("DONE", "CANCELLED") and "ret" in rl:
             try:
-                ok = float(out) == float(i + voff)
+                ok = float(out) == _expected(scn, i)
             except Exception:
                 ok = False
             if not ok:
                 bad.append(("value-not-kept", entry, dict(info, output=repr(out))))
+    # (S) "the search returns once the running evaluations have returned": once a gather of a timed call has ended at or
+    # after the call's deadline (the `time_left <= 0` test that follows it cannot read an earlier clock), the call asks
+    # for / submits no further evaluation -- with or without callbacks, whatever they say (order of events, no duration)
+    if scn["level"] == "search" and per_call:
+        for ci, (c, rec) in enumerate(zip(scn["calls"], obs["calls"])):
+            d = _late_detail(c, rec, serial, obs["timeline"][ci][0])
+            if d:
+                bad.append(("keeps-submitting-after-expiry", entry, dict(d, call=ci)))
     # (R) search returns no later than its last evaluation (virtual clock only: an assertion on order, not on a duration)
     if scn["level"] == "search" and serial and per_call:
         for ci, rec in enumerate(obs["calls"]):
@@ -964,8 +1147,10 @@ def oracle_shared(scn, obs):
     is the one the job actually reached (= the last status written for it) and the one every other table reports"""
     entry = "Search.search"
     if obs.get("error"):
-        return [("does-not-return" if "does-not-return" in obs["error"] or "vloop" in obs["error"] else "raises", entry,
-                 {"error": obs["error"], "call": obs.get("error_call")})]
+        err = obs["error"]
+        clause = "keeps-submitting-after-expiry" if err.startswith("keeps-submitting-after-expiry") else \
+            "does-not-return" if "does-not-return" in err or "vloop" in err else "raises"
+        return [(clause, entry, {"error": err, "call": obs.get("error_call"), "asks": obs.get("error_asks"), "tells": obs.get("error_tells")})]
     scn_u = dict(scn, level="search")
     bad = list(oracle(scn_u, obs, reported=_first_reports(obs), per_call=False))
     voff = int(scn.get("voff", 0))
@@ -995,7 +1180,7 @@ def oracle_shared(scn, obs):
             if lg and r["status"] in ST and ST[r["status"]] != lg[-1]:
                 bad.append(("reported-status-not-reached", entry, dict(where, job=i, reported=r["status"], log=lg)))
             try:
-                ok = float(r["objective"]) == float(i + voff)
+                ok = float(r["objective"]) == _expected(scn, i)
             except Exception:
                 ok = False
             if not ok and i in runlog and "ret" in runlog[i]:
@@ -1008,6 +1193,9 @@ def oracle_shared(scn, obs):
             asks = [_tick(x) for x in rec.get("ask_ends") or []]
             if rets and _tick(rec["end"]) > max(rets + asks + [_tick(obs["timeline"][ci][0])]):
                 bad.append(("returns-later-than-last-evaluation", entry, dict(where, end=_tick(rec["end"]), last_ret=max(rets))))
+        d = _late_detail(scn["calls"][ci], rec, serial, obs["timeline"][ci][0])
+        if d:
+            bad.append(("keeps-submitting-after-expiry", entry, dict(where, **d)))
         prev_ids[k] = set(ids)
     for i, (s0, ci) in sorted(first.items()):
         fs = (obs.get("final_storage") or {}).get(i)
@@ -1036,12 +1224,14 @@ def build_shared_obs(scn, obs):
 
 
 def lean_request_shared(scn, obs, jobfirst=()):
-    voff = int(scn.get("voff", 0))
-    specs = [[int(m), int(p), i in jobfirst, i + voff] for i, (m, p) in enumerate(scn["specs"])]
+    specs = [[int(m), int(p), i in jobfirst, int(_expected(scn, i))] for i, (m, p) in enumerate(scn["specs"])]
     acts = []
     for c, rec in zip(scn["calls"], obs["calls"]):
-        acts.append({"e": c["k"], "op": "search", "n": -1 if c.get("n") is None else c["n"], "strict": bool(c.get("strict")),
-                     "timeout": c.get("t"), "reps": rec["reps"], "drain": rec["drain"], "delays": list(c.get("delays") or [])})
+        a = {"e": c["k"], "op": "search", "n": -1 if c.get("n") is None else c["n"], "strict": bool(c.get("strict")),
+             "timeout": c.get("t"), "reps": rec["reps"], "drain": rec["drain"], "delays": list(c.get("delays") or [])}
+        if scn.get("cbs") is not None:
+            a["views"] = [[None if v is None else bool(v) for v in vs] for vs in rec["views"]]
+        acts.append(a)
     return {"op": "world", "Ws": list(scn["Ws"]), "hpo": True, "specs": specs, "acts": acts}
 
 
@@ -1066,6 +1256,7 @@ def _compare_shared(scn, obs, rep):
             diff[f"call{c}.rows"] = (len(rec["rows"]), mo["nresults"])
         if rec["njobs"] != mo["njobs"]:
             diff[f"call{c}.njobs"] = (rec["njobs"], mo["njobs"])
+        _flags_diff(diff, f"call{c}", rec, mo, obs["timeline"][c][1])
         last[rec["k"]] = rec["rows"]
     final = obs.get("final_storage") or {}
     for k, rows in sorted(last.items()):
@@ -1107,7 +1298,10 @@ def _canon_shared(scn):
             order.append(c["k"])
     if order == list(range(len(scn["Ws"]))):
         return scn
-    return dict(scn, Ws=[scn["Ws"][k] for k in order], calls=[dict(c, k=order.index(c["k"])) for c in scn["calls"]])
+    out = dict(scn, Ws=[scn["Ws"][k] for k in order], calls=[dict(c, k=order.index(c["k"])) for c in scn["calls"]])
+    if scn.get("cbs") is not None:
+        out["cbs"] = [scn["cbs"][k] if k < len(scn["cbs"]) else [] for k in order]
+    return out
 
 
 def shrink_shared(scn, clause, budget=40):
@@ -1146,6 +1340,18 @@ def shrink_shared(scn, clause, budget=40):
             cands.append(dict(best, Ws=[1] * len(best["Ws"])))
         if int(best.get("voff", 0)) == 0:
             cands.append(dict(best, voff=1))
+        if best.get("cbs") is not None:
+            # the shortest failing prefix of the history; no callbacks at all; an evaluator without its callbacks; one
+            # callback less; increasing objectives
+            cands = [_canon_shared(dict(best, calls=best["calls"][:L])) for L in range(1, len(best["calls"]))] + cands
+            cands.append({k: v for k, v in best.items() if k not in ("cbs", "vmode")})
+            for e, ds in enumerate(best["cbs"]):
+                if ds:
+                    cands.append(dict(best, cbs=best["cbs"][:e] + [[]] + best["cbs"][e + 1:]))
+                if len(ds) > 1:
+                    cands += [dict(best, cbs=best["cbs"][:e] + [ds[:j] + ds[j + 1:]] + best["cbs"][e + 1:]) for j in range(len(ds))]
+            if best.get("vmode", "up") != "up":
+                cands.append(dict(best, vmode="up"))
         for cand in cands:
             if fails(cand):
                 best, changed = cand, True
@@ -1156,8 +1362,10 @@ def shrink_shared(scn, clause, budget=40):
 def fingerprint_shared(clause, entry, scn):
     ks = [f"e{c['k']}:{call_kind(c)}" for c in scn["calls"]]
     opt = f"history={','.join(ks[:-1]) or '-'};call={ks[-1]};backend={scn['backend']}"
-    if int(scn.get("voff", 0)) == 0:
+    if int(scn.get("voff", 0)) == 0 and scn.get("vmode", "up") == "up":
         opt += ";zero_objective=True"
+    if scn.get("cbs") and any(scn["cbs"]):
+        opt += ";callbacks=" + "/".join(_cb_names(ds) or "-" for ds in scn["cbs"])
     return f"C14|{clause}|{entry}|{opt}"
 
 
@@ -1391,7 +1599,7 @@ def build_obs(scn, obs, reported=None):
                     rec["loopRan"] = _loop_ran(obs, dlo, rl["ret"])
         if gathered:
             try:
-                rec["valueKept"] = float(fin[1]) == float(i + voff)
+                rec["valueKept"] = float(fin[1]) == _expected(scn, i)
             except Exception:
                 rec["valueKept"] = False
         jobs.append(rec)
@@ -1402,6 +1610,8 @@ def fingerprint(clause, entry, scn):
     if scn["level"] == "search":
         ks = [call_kind(c) for c in scn["calls"]]
         opt = f"history={','.join(ks[:-1]) or '-'};call={ks[-1]};backend={scn['backend']}"
+        if scn.get("cbs"):
+            opt += f";callbacks={_cb_names(scn['cbs'])}"
     else:
         names = [("gatherALL" if o.get("all") else "gatherBATCH") if o["op"] == "gather" else o["op"] for o in scn["ops"]]
         names = [n for k, n in enumerate(names) if k == 0 or names[k - 1] != n]  # repeats collapse
@@ -1471,6 +1681,20 @@ def shrink(scn, clause, budget=40):
                 cands.append(dict(best, calls=best["calls"][:j] + [dict(c, n=None, strict=False)] + best["calls"][j + 1:]))
             if c.get("strict") and j < len(best["calls"]) - 1:
                 cands.append(dict(best, calls=best["calls"][:j] + [dict(c, strict=False)] + best["calls"][j + 1:]))
+        if best.get("cbs") is not None:
+            # which callbacks does the failure need?  none at all, else fewer of them; no slow ask; plain values;
+            # the last call without its budget of evaluations
+            cands.append({k: v for k, v in best.items() if k not in ("cbs", "vmode")})
+            if len(best["cbs"]) > 1:
+                cands += [dict(best, cbs=best["cbs"][:j] + best["cbs"][j + 1:]) for j in range(len(best["cbs"]))]
+            if best.get("vmode", "up") != "up":
+                cands.append(dict(best, vmode="up"))
+            for j, c in enumerate(best["calls"]):
+                if c.get("delays"):
+                    cands.append(dict(best, calls=best["calls"][:j] + [{k: v for k, v in c.items() if k != "delays"}] + best["calls"][j + 1:]))
+            c = best["calls"][-1]
+            if c.get("n") is not None and c.get("t") is not None:
+                cands.append(dict(best, calls=best["calls"][:-1] + [{k: v for k, v in c.items() if k not in ("n", "strict")}]))
         for cand in cands:
             if fails(cand):
                 best, changed = cand, True
@@ -1588,6 +1812,112 @@ def gen_search(ck, n):
                     src = "search:slow-ask"
         out.append({"level": "search", "backend": "serial", "W": W, "specs": specs, "calls": calls, "src": src})
     return out
+
+
+CB_CHOICES = [
+    # (callbacks of the evaluator, value mode): "up" = every evaluation improves on the previous ones (an early-stopping
+    # callback never fires), "down" = none after the first does (it fires after patience + 1 evaluations)
+    (["logger"], "up"), (["tqdm"], "up"),
+    ([["es", 2]], "up"), ([["es", 50]], "down"),                      # early stopping that never fires
+    ([["es", 1]], "down"), ([["es", 2]], "down"), ([["es", 4]], "down"),  # ... that fires before / around / after the deadline
+    ([["user", None]], "up"), ([["user", 2]], "up"), ([["user", 5]], "up"),
+    (["logger", ["es", 3]], "up"), ([["es", 50], "logger"], "down"), ([["user", None], ["es", 2]], "up"),
+    ([["es", 3], ["user", None]], "down"), ([["user", 3], ["es", 50]], "down"),
+]
+
+
+def gen_search_callbacks(ck, n):
+    """serial backend, virtual clock: sequences of 1-3 search() calls on an evaluator created with `callbacks=[...]`
+    (an option of every evaluator): logger / progress bar (no `search_stopped` attribute), SearchEarlyStopping that never
+    fires, that fires before / around / after the deadline, a user's own callback with a `search_stopped` attribute, and
+    combinations; the callback objects live across the calls (a fired one stays fired)"""
+    rng = ck.rng
+    out = []
+    fam = [["T"], ["B"], ["T", "T"], ["Q"], ["T", "P"], ["B", "T"], ["P", "T"], ["T", "B", "T"]]
+    for t in range(n):
+        cbs, vmode = CB_CHOICES[t % len(CB_CHOICES)]
+        W = rng.choice([1, 2, 2, 4])
+        seq = fam[(t // len(CB_CHOICES)) % len(fam)] if t < 4 * len(CB_CHOICES) else \
+            [rng.choice("PTTTBBQ") for _ in range(rng.choice([1, 2, 3]))]
+        if not any(k in "TBQ" for k in seq):
+            seq[-1] = "T"
+        calls = [_rand_call(rng, k) for k in seq]
+        for x in calls:
+            if x.get("n") is not None and x.get("t") is not None:
+                x["n"] = rng.choice([3, 5, 8, 12])  # room for the callback / the deadline to come first
+        c = next((x["t"] for x in calls if x.get("t") is not None), 3)
+        # mostly short evaluations (several iterations of the loop before the deadline: the flag logic at the end of each
+        # one is what these scenarios are about), some straddling the deadline as in gen_search
+        around = _specs_around(rng, 120, c, W)
+        specs = []
+        for m, p in around:
+            if rng.random() < 0.7:
+                p = rng.choice([1, 1, 2])
+                m = max(1, rng.choice([1, 1, 1, 2, 2, 3]) // p)
+            specs.append([max(1, m), p])
+        src = "search:callbacks"
+        if rng.random() < 0.25:
+            for x in calls:  # a slow ask(), under the same restriction as in gen_search
+                if x.get("t") is not None:
+                    if W == 1:
+                        x["delays"] = [rng.choice([0, 0, 1]) for _ in range(rng.randint(0, 2))] + [rng.randint(1, x["t"] + 1)]
+                    else:
+                        x["delays"] = [rng.randint(x["t"] - 1, x["t"] + 2)]
+                    src = "search:callbacks:slow-ask"
+        out.append({"level": "search", "backend": "serial", "W": W, "specs": specs, "calls": calls, "cbs": [d for d in cbs],
+                    "vmode": vmode, "src": src})
+    return out
+
+
+def gen_callbacks_realtime(ck, n, backend):
+    """thread / process backend, real time: a timed search() on an evaluator with callbacks that do not fire before the
+    deadline (early stopping whose patience is never reached, logger, a user's callback)"""
+    rng = ck.rng
+    out = []
+    unit = 0.05
+    choices = [([["es", 3]], "up"), (["logger", ["es", 50]], "down"), ([["user", None]], "up")]
+    for t in range(n):
+        cbs, vmode = choices[t % len(choices)]
+        W = rng.choice([1, 2])
+        tt = 1 if backend == "thread" else 2
+        calls = [{"t": tt}] if t % 2 == 0 else [{"t": tt, "n": 12}]
+        specs = []
+        for i in range(80):
+            p = rng.choice([1, 2])
+            dur = rng.choice([0.25, 0.5, 0.5, 0.75])
+            specs.append([int(round(dur / (p * unit))), p])
+        out.append({"level": "search", "backend": backend, "W": W, "specs": specs, "calls": calls, "unit": unit,
+                    "cbs": [d for d in cbs], "vmode": vmode, "src": f"{backend}:callbacks"})
+    return out
+
+
+
+def gen_shared_callbacks(ck, n):
+    """serial backend: histories of 2-3 search() calls by 2 evaluators on one storage, each created with its own
+    callbacks (their `on_done_other` sees the jobs collected from the other evaluator)"""
+    rng = ck.rng
+    out = []
+    fam = [[(0, "T"), (1, "T")], [(0, "T"), (1, "B")], [(0, "B"), (1, "T"), (0, "T")], [(0, "T"), (1, "P"), (1, "T")]]
+    for t in range(n):
+        seq = fam[t % len(fam)]
+        Ws = [rng.choice([1, 2, 2, 4]) for _ in range(2)]
+        calls = [dict(_rand_call(rng, kind), k=k) for k, kind in seq]
+        for x in calls:
+            if x.get("n") is not None and x.get("t") is not None:
+                x["n"] = rng.choice([3, 5, 8])
+        c0, vmode = CB_CHOICES[(2 * t) % len(CB_CHOICES)]
+        c1, _ = CB_CHOICES[(2 * t + 1 + t // len(CB_CHOICES)) % len(CB_CHOICES)]
+        c = next((x["t"] for x in calls if x.get("t") is not None), 3)
+        specs = []
+        for m, p in _specs_around(rng, 120, c, max(Ws)):
+            if rng.random() < 0.7:
+                p = rng.choice([1, 1, 2])
+                m = max(1, rng.choice([1, 1, 1, 2, 2, 3]) // p)
+            specs.append([max(1, m), p])
+        out.append({"level": "shared", "backend": "serial", "Ws": Ws, "voff": 1, "vmode": vmode, "specs": specs, "calls": calls,
+                    "cbs": [list(c0), list(c1)], "src": "shared:callbacks"})
+    return out
+
 
 
 def gen_shared(ck, n, nzero):
@@ -1822,6 +2152,7 @@ def _compare_serial(ck, scn, obs, rep, case):
                 diff[f"call{k}.now"] = (rec["now"], mo["now"])
             if len(rec["rows"]) != mo["nresults"]:
                 diff[f"call{k}.rows"] = (len(rec["rows"]), mo["nresults"])
+            _flags_diff(diff, f"call{k}", rec, mo, obs["timeline"][k][1])
         rows = obs["calls"][-1]["rows"] if obs["calls"] else []
         real_results = [r["id"] for r in rows]
         final = {r["id"]: r["status"] for r in rows}
@@ -1869,7 +2200,7 @@ def _tie_jobs(rep):
 
 
 def _case_of(scn, obs=None):
-    case = {k: scn[k] for k in ("level", "backend", "W", "Ws", "voff", "specs", "ops", "calls", "unit", "hpo") if k in scn}
+    case = {k: scn[k] for k in ("level", "backend", "W", "Ws", "voff", "vmode", "cbs", "specs", "ops", "calls", "unit", "hpo") if k in scn}
     if scn["level"] in ("search", "shared") and obs is not None:
         used = [i for i in obs.get("runlog", {})] + [0]
         case["specs"] = case["specs"][: max(used) + 4]  # the run-functions of the jobs that ran (+ a few)
@@ -2094,6 +2425,103 @@ def _run_chunk(scns):
     return [run_scenario(s) for s in scns]
 
 
+def _isolated_child(scn, conn):
+    try:
+        os.setsid()  # own process group: the evaluator's worker processes / storage manager can be killed with it
+    except Exception:
+        pass
+    try:
+        common.use_repo_sources()
+        conn.send(run_scenario(scn))
+    except BaseException as e:  # noqa: BLE001
+        try:
+            conn.send({"__harness_error__": f"{type(e).__name__}: {e}"[:500]})
+        except Exception:
+            pass
+    finally:
+        try:
+            conn.close()
+        finally:
+            os._exit(0)  # no atexit handlers, no waiting for lingering executor threads
+
+
+def _run_isolated(scns, workers=4, limit=300.0):
+    """thorough tier, real-time scenarios: each one in a process of its own (forked from the main process, which has
+    imported the library once), at most `workers` side by side.  A worker that handles several scenarios in a row forks
+    the process backend's children while threads of an earlier thread-backend scenario are still alive; a child can then
+    inherit a locked lock and never answer (observed: 2 thorough runs out of 7 did not end).  A scenario whose process
+    does not answer within `limit` seconds (they take 2-15 s) is killed with its descendants and run once more; a second
+    silence is `does-not-return` on a tree that differs from its HEAD (as main.py's watchdog does for the whole run) and a
+    harness error on an unchanged tree."""
+    import multiprocessing as mp
+    import signal
+
+    ctx = mp.get_context("fork")
+    out = [None] * len(scns)
+    todo = [(i, 1) for i in range(len(scns))]
+    running = []  # (index, attempt, process, connection, start time)
+
+    def kill(proc):
+        for sig_target in (lambda: os.killpg(proc.pid, signal.SIGKILL), lambda: proc.kill()):
+            try:
+                sig_target()
+            except Exception:
+                pass
+        proc.join(timeout=5)
+
+    try:
+        while todo or running:
+            while todo and len(running) < workers:
+                i, attempt = todo.pop(0)
+                parent, child = ctx.Pipe(duplex=False)
+                proc = ctx.Process(target=_isolated_child, args=(scns[i], child), daemon=False)
+                proc.start()
+                child.close()
+                running.append((i, attempt, proc, parent, _time.time()))
+            progressed = False
+            for item in list(running):
+                i, attempt, proc, conn, t0 = item
+                got = None
+                try:
+                    if conn.poll(0):
+                        got = conn.recv()
+                    elif not proc.is_alive() and not conn.poll(0.2):
+                        got = {"__harness_error__": f"scenario process died (exit code {proc.exitcode})"}
+                except (EOFError, OSError):
+                    got = {"__harness_error__": "scenario process closed its pipe without an answer"}
+                if got is not None:
+                    running.remove(item)
+                    conn.close()
+                    kill(proc)
+                    progressed = True
+                    if "__harness_error__" in got:
+                        raise HarnessError(f"C14 real-time scenario {scns[i].get('src')}: {got['__harness_error__']}")
+                    out[i] = got
+                elif _time.time() - t0 > limit:
+                    running.remove(item)
+                    conn.close()
+                    kill(proc)
+                    progressed = True
+                    if attempt == 1:
+                        todo.append((i, 2))
+                    elif common.tree_differs_from_head():
+                        out[i] = {"error": f"does-not-return: no answer within {limit:.0f} s, twice", "calls": [], "ops": [], "timeline": [],
+                                  "runlog": {}, "slog": None, "results": [], "final": {}, "nsub": 0, "owner": {}}
+                    else:
+                        raise HarnessError(f"C14 real-time scenario {scns[i].get('src')} did not answer within {limit:.0f} s (twice) "
+                                           "on a tree identical to its HEAD")
+            if not progressed:
+                _time.sleep(0.05)
+    finally:
+        for _, _, proc, conn, _ in running:
+            try:
+                conn.close()
+            except Exception:
+                pass
+            kill(proc)
+    return out
+
+
 def run(ck):
     logging.getLogger("asyncio").setLevel(logging.CRITICAL)  # "Task was destroyed but it is pending" of shielded runs after close()
     ck.rule = ("serial backend on the virtual clock: evaluator op scripts (timeout, submit of 1-8 jobs on 1-4 workers, "
@@ -2107,7 +2535,12 @@ def run(ck):
                "(virtual clock, replayed by the world model of Model/SharedStorage.lean) and on the thread and process "
                "backends (real time; every status write to the shared storage is logged on all three), a few of them with "
                "an objective of exactly 0.0, and evaluator-level scripts on 2 serial evaluators (continue / closed-inflight "
-               "/ direct gather_other_jobs_done); distinct by canonical scenario; non-trivial = a timeout is in play "
+               "/ direct gather_other_jobs_done); evaluators created with callbacks (logger, progress bar, "
+               "SearchEarlyStopping that never fires / fires before, around or after the deadline, a user's callback with a "
+               "search_stopped attribute, combinations; increasing or decreasing objectives): sequences of 1-3 search() "
+               "calls on the serial backend replayed by the model's loop with the explicit stopped flag "
+               "(Model/StopFlag.lean, fed with what _search saw of each callback per iteration), timed searches on the "
+               "thread (thorough: process) backend; distinct by canonical scenario; non-trivial = a timeout is in play "
                "and at least one job ran (multi-evaluator histories: at least two evaluators acted)")
     ck.assumptions = [
         "asyncio.wait reports only finished tasks, each once, at least as many as awaited (checked by the model on the observed reports: otherwise badEnv)",
@@ -2117,6 +2550,7 @@ def run(ck):
         "close() while a job is CANCELLING leaves it CANCELLING and unreported (modelled as Pc.aborted; outside the property: the evaluation has not returned)",
         "several evaluators on one storage: an evaluator acts only while the others have nothing in flight (their event loops do not run meanwhile); the order in which gather_other_jobs_done reports the jobs of the others (ids sorted as strings) is an observed input whose contract (exactly the collectable jobs not yet gathered, each once) the model checks",
         "does-not-return (multi-evaluator histories) = 2000 consecutive polls of the storage by the caller without any write to it (progress, not a duration)",
+        "callbacks: what _search sees of a callback is whether it has a search_stopped attribute and its value after each tell (observed on the harness-held objects, input of the model); keeps-submitting-after-expiry = an ask() of a timed call after a tell() of that call whose clock reading was already >= (instant of the call's first ask + budget) >= the evaluator's deadline (order of events); runs with callbacks are cut short after 12 such asks, or 60 asks in one call (every evaluation of these scenarios takes >= 1 tick, a call needs at most max(n, t + 2) asks)",
     ]
     ck.trusted_extra = ["harness/vloop.py (virtual-time event loop, patched time of deephyper.evaluator._evaluator)"]
     from . import vloop
@@ -2133,6 +2567,11 @@ def run(ck):
     # several evaluators on one storage (generated last: the scenarios above are the same as before for a given seed)
     serial += gen_shared(ck, ck.pick(70, 900), ck.pick(3, 6)) + gen_shared_evaluator(ck, ck.pick(30, 300))
     real += gen_shared_realtime(ck, ck.pick(2, 8), "thread") + gen_shared_realtime(ck, ck.pick(1, 4), "process")
+    # evaluators with callbacks (generated after everything else, for the same reason)
+    serial += gen_search_callbacks(ck, ck.pick(60, 750)) + gen_shared_callbacks(ck, ck.pick(16, 200))
+    real += gen_callbacks_realtime(ck, ck.pick(2, 6), "thread")
+    if ck.thorough:
+        real += gen_callbacks_realtime(ck, 3, "process")
     if ck.thorough:
         import concurrent.futures as cf
 
@@ -2140,11 +2579,13 @@ def run(ck):
         with cf.ProcessPoolExecutor(max_workers=16) as ex:
             res = list(ex.map(_run_chunk, chunks))
         pairs = [(s, o) for ch, os_ in zip(chunks, res) for s, o in zip(ch, os_)]
-        # real-time scenarios afterwards, few at a time: they should not compete with the batch above for the CPUs
-        rchunks = [[s] for s in real]
-        with cf.ProcessPoolExecutor(max_workers=4) as ex:
-            res = list(ex.map(_run_chunk, rchunks))
-        pairs += [(s, o) for ch, os_ in zip(rchunks, res) for s, o in zip(ch, os_)]
+        # real-time scenarios afterwards, few at a time (they should not compete with the batch above for the CPUs), each
+        # in a process of its own
+        common.use_repo_sources()
+        import deephyper.evaluator  # noqa: F401  (imported once here: the scenario processes are forked from this one)
+        import deephyper.hpo  # noqa: F401
+
+        pairs += list(zip(real, _run_isolated(real, workers=4)))
     else:
         pairs = [(s, run_scenario(s)) for s in serial]
         vloop.uninstall()
